@@ -63,16 +63,63 @@ def prog(pid, elems):
     return (pid, "A %s %s s %s" % (pid, yv.hx(rule), concat([e[1] for e in elems])), src, feats)
 
 
+def window_family(quick):
+    """long fixed-length runs (5..7, thorough ..8 one-byte elements: literal / ?? / nibble mask / negation) - longer than the 4-byte atom, so that the
+    atom extractor has to slide its window, trim wildcards at the window's ends and bind the chosen atom to the right forward / backward code; each
+    pattern gets its own buffer list: instances with different fillers for the non-literal positions, framed by 0-2 junk bytes, doubled, and one near
+    miss per literal position.  Two literal palettes (rare bytes; common bytes 00 20 FF 41 that the quality heuristic penalises)."""
+    out = []
+    pal = [[0x10, 0x21, 0x32, 0x43, 0x54, 0x65, 0x76, 0x87], [0x00, 0x20, 0xff, 0x41, 0x00, 0x61, 0x20, 0x0a]]
+    kinds = "LWMN" if not quick else "LWM"
+    for n in ((5, 6, 7) if quick else (5, 6, 7, 8)):
+        for mid in itertools.product(kinds, repeat=n - 2):
+            shape = "L" + "".join(mid) + "L"
+            if shape.count("L") < 3: continue
+            for pi, P in enumerate(pal):
+                if quick and pi == 1 and n == 7: continue
+                elems, inst = [], []
+                for i, k in enumerate(shape):
+                    b = P[i]
+                    if k == "L": elems.append(("%02X" % b, "B %02x ff 0" % b, "lit")); inst.append(("L", b))
+                    elif k == "W": elems.append(("??", ANY, "mask")); inst.append(("W", 0))
+                    elif k == "M": elems.append(("%X?" % (b >> 4), "B %02x f0 0" % (b & 0xf0), "mask")); inst.append(("M", b & 0xf0))
+                    else: elems.append(("~%02X" % b, "B %02x ff 1" % b, "not")); inst.append(("N", b))
+                def make(fill):
+                    o = bytearray()
+                    for k, b in inst:
+                        o.append(b if k == "L" else fill if k == "W" else (b | (fill & 0x0f)) if k == "M" else (fill if fill != b else fill ^ 0x55))
+                    return bytes(o)
+                bufs = set()
+                base = [make(0x00), make(0xee), make(P[1]), make(P[-1])]
+                for v in base:
+                    for pre in (b"", b"\x99", b"\x00\x10"):
+                        for post in (b"", b"\x10"):
+                            bufs.add(pre + v + post)
+                    bufs.add(v + v); bufs.add(v[:-1] + v); bufs.add(v[:3] + v)
+                v = base[0]
+                for i, (k, b) in enumerate(inst):
+                    if k == "L": bufs.add(b"\x99" + v[:i] + bytes([b ^ 0x04]) + v[i + 1:] + b"\x10")
+                    if k == "N": bufs.add(b"\x99" + v[:i] + bytes([b]) + v[i + 1:] + b"\x10")
+                bl = "B list " + " ".join(x.hex() for x in sorted(bufs) if len(x) <= 63)
+                pid, line, src, feats = prog("w%d_%s_%d" % (n, shape, pi), elems)
+                out.append((pid, line, src, "window-family:" + feats, bl))
+    return out
+
+
 _sp = {}
 def run_chunk(arg):
     variant, spacecmd, progs = arg
     key = (variant, os.getpid(), spacecmd)
     sp = _sp.get(key)
     if sp is None:
-        sp = yv.Space(variant); sp.space(spacecmd); _sp[key] = sp
+        sp = yv.Space(variant)
+        if spacecmd: sp.space(spacecmd)
+        _sp[key] = sp
     out = []
-    for (pid, line, src, feats) in progs:
+    for it in progs:
+        (pid, line, src, feats) = it[:4]
         try:
+            if len(it) > 4: sp.send(it[4])
             r = sp.send(line)
         except yv.WorkerDied as e:
             r = dict(id=pid, crash=e.rc, stderr=e.err[-2000:]); sp.restart()
@@ -199,6 +246,7 @@ def main():
     lb = 7 if quick else 8
     chunks = [("plain", "B all %s %d" % (alpha, lb), c) for c in yv.chunked(jobs_plain, 40)]
     chunks += [("small", "B all %s %d" % (alpha, 8 if quick else 9), c) for c in yv.chunked(jobs_small, 20)]
+    chunks += [("plain", None, c) for c in yv.chunked(window_family(quick), 100)]
     if quick:
         chunks += [("asan", "B all %s 5" % alpha, c) for c in yv.chunked(jobs_plain[:3500:3], 60)]
     for v in ("plain", "small", "asan"): yv.space_exe(v)
@@ -223,7 +271,8 @@ def main():
     ck.cov["rule"] = ("programs = every grammar-legal sequence of <=3 (quick) / <=4 (thorough) elements from {4 bytes, 3 masks, 3 negations, 4 alternations, "
                       "6 jumps} (+ length 4/5 over a reduced alphabet) on the shipped constants, and every such pattern containing a jump over "
                       "the chaining threshold on the build with the threshold scaled to 3; inputs = all buffers over {41,40,61,00} with length <= %d; "
-                      "non-trivial = (pattern, buffer) pairs where the reference expects a match; plus boundary chains on the real threshold 200" % lb)
+                      "non-trivial = (pattern, buffer) pairs where the reference expects a match; plus boundary chains on the real threshold 200; plus the window family: "
+                      "every fixed-length run of 5..7 (8) one-byte elements {literal, ??, nibble mask, negation} in two byte palettes, each against its own instance / near-miss buffers" % lb)
     ck.assumptions += ["the scaled-threshold build is the same source with YR_STRING_CHAINING_THRESHOLD=3", "reported length must be one the pattern can match at that offset"]
     ck.finish()
 
